@@ -78,7 +78,7 @@ func jailReceive(raw json.RawMessage) (any, error) {
 	pair := h.NewPair(context.Background(), a.Capacity)
 	opt := fsutil.ReceiveOpt{Merge: strings.Contains(a.Mode, "merge")}
 	if strings.Contains(a.Mode, "metaonly") {
-		opt.MetadataOnly = func(p string, st *types.Stat) bool { return len(p)%2 == 0 || strings.Contains(p, "a") }
+		opt.MetadataOnly = func(p string, st *types.Stat) bool { return c03Selected(p) }
 	}
 	var recvErr error
 	sr := h.NewRefSendResult()
@@ -290,6 +290,11 @@ func c03Classify(c *c03Case) (firstBad int, unspecified bool) {
 		if h.StreamSpec(seq) >= 0 {
 			return i, false
 		}
+		if strings.ContainsRune(p, 0) {
+			// no file system entry can carry a NUL byte: the call cannot succeed
+			// and cannot apply this entry, whatever the validator thinks of it
+			return i, false
+		}
 		if !m.IsDir() && m&os.ModeSymlink == 0 {
 			if s.Link != "" {
 				if !files[string(s.Link)] {
@@ -309,6 +314,22 @@ func c03Classify(c *c03Case) (firstBad int, unspecified bool) {
 		}
 	}
 	return -1, false
+}
+
+// c03Selected is the metadata-only selector of the jailed receiver.
+func c03Selected(p string) bool { return len(p)%2 == 0 || strings.Contains(p, "a") }
+
+func c03UnclosedSelection(c *c03Case) bool {
+	if !strings.Contains(c.Mode, "metaonly") {
+		return false
+	}
+	for _, s := range c.Stats {
+		m := os.FileMode(s.Mode)
+		if s.Link != "" && m&os.ModeSymlink == 0 && !m.IsDir() && c03Selected(string(s.Path)) && !c03Selected(string(s.Link)) {
+			return true
+		}
+	}
+	return false
 }
 
 func c03Check(env *h.Env, c *c03Case) error {
@@ -436,8 +457,9 @@ func c03Check(env *h.Env, c *c03Case) error {
 			}
 		}
 	}
-	// (3) a legal stream succeeds
-	if !hostile && firstBad < 0 && !res.Stuck {
+	// (3) a legal stream succeeds (a metadata-only selector that picks a hard link
+	// but not its link source is outside what C19 states: either verdict)
+	if !hostile && firstBad < 0 && !res.Stuck && !c03UnclosedSelection(c) {
 		if res.RecvErr != "" && !strings.Contains(c.Mode, "merge") {
 			return fmt.Errorf("%s: legal stream but Receive failed: %s", what, res.RecvErr)
 		}
